@@ -13,8 +13,10 @@
                      reference that is NOT marked bypass is (for get_hwires/get_hcables: only under
                      selection INSIDE) handed to the name map (_update_*_namemap), whose entries are
                      filtered by `patterns` at the very end; a bypass-marked one yields its contents
-                     directly - `patterns` are never looked at (known finding C13-K6) - and, when
-                     recursive (or selection ALL), pushes ALL its children, marked bypass.
+                     directly and, when recursive (or selection ALL), pushes ALL its children, marked
+                     bypass. Since fix 1630eaa (former finding C13-K6: the patterns were never looked
+                     at here) a reference found directly is yielded only if one of the patterns matches
+                     its hierarchical name - see [direct_match] below.
    All roots share the sets in_yield (a reference is yielded once), hpin_search (ONE closure over
    the pins collected from all roots, after the loop) and in_namemap (a reference is registered in
    the name map once, under the name relative to the FIRST root that reaches it; entries that were
@@ -88,10 +90,48 @@ Fixpoint nfirst (acc l : list nentry) : list nentry :=
 Definition name_ok (s : state) (pat : str -> bool) (e : nentry) : bool :=
   match rel_name s (fst e) (snd e) with Some nm => pat nm | None => false end.
 
-(* the end of every _get_h*_raw: what was yielded directly, then the registered references that
-   were not yielded and whose name is selected by the patterns *)
-Definition finish (s : state) (pat : str -> bool) (direct : list href) (named : list nentry) : list href :=
-  href_union direct (map snd (filter (name_ok s pat) (nfirst [] named))).
+(* ---- the patterns on references found DIRECTLY (_href_matches_any_pattern, fix 1630eaa) ----
+   relative_to = the references to NON-TOP hierarchical instances among the objects searched (as
+   handed in, valid or not); use_full_name = some object searched is not one of these. The names
+   tried for a reference h found directly: its full name (HRef.name) when use_full_name, and its
+   name relative to each member of relative_to it lies below; if that gives no name at all, the full
+   name. h is kept when some pattern matches some of these names - always by
+   _value_matches_pattern ([dpat] = "some pattern matches"), absolute patterns included.
+   A name that is not a string makes the code raise; here it matches nothing. *)
+Definition is_rel_root (s : state) (r : root) : list href :=
+  match r with
+  | RHref ((x :: _ :: _) as h) => if kind_is s x KInstance then [h] else []
+  | _ => []
+  end.
+
+Definition rel_roots (s : state) (roots : list root) : list href := flat_map (is_rel_root s) roots.
+
+(* h lies below (or is) the reference root: root is a suffix of the leaf-first chain h *)
+Definition lies_below (root h : href) : bool :=
+  (length root <=? length h) && href_eqb root (skipn (length h - length root) h).
+
+Definition direct_names (relroots : list href) (use_full : bool) (h : href) : list nentry :=
+  let names := (if use_full then [(0, h)] else []) ++
+               map (fun root => (pred (length root), h)) (filter (fun root => lies_below root h) relroots) in
+  match names with [] => [(0, h)] | _ => names end.
+
+Definition direct_match_with (s : state) (dpat : str -> bool) (relroots : list href) (use_full : bool)
+           (h : href) : bool :=
+  existsb (name_ok s dpat) (direct_names relroots use_full h).
+
+Definition direct_match (s : state) (dpat : str -> bool) (roots : list root) : href -> bool :=
+  let rr := rel_roots s roots in
+  direct_match_with s dpat rr (length rr <? length roots).
+
+(* [dpat] for a list of patterns *)
+Definition pat_any_of (mt : str -> str -> bool) (pats : list str) (nm : str) : bool :=
+  existsb (fun p => mt p nm) pats.
+
+(* the end of every _get_h*_raw: what was found directly and passes the pattern test [dm], then the
+   registered references that were not yielded so and whose name is selected by the patterns *)
+Definition finish (s : state) (pat : str -> bool) (dm : href -> bool) (direct : list href)
+           (named : list nentry) : list href :=
+  href_union (filter dm direct) (map snd (filter (name_ok s pat) (nfirst [] named))).
 
 (* ---- phase 1 per entry: (yielded directly, hierarchical pins for the closure, name map) ---- *)
 Definition trip := (list href * list href * list nentry)%type.
@@ -221,54 +261,58 @@ Definition hq_entry (s : state) (recursive : bool) (e : entry) : option trip :=
 
 (* ---- the four queries on a work list of entries ---- *)
 Definition get_hwires_entries (s : state) (x : sel) (recursive : bool) (pat : str -> bool)
-           (usum : nat) (es : list entry) : option (list href) :=
+           (dm : href -> bool) (usum : nat) (es : list entry) : option (list href) :=
   match collect (hw_entry s x recursive) es with
   | None => None
   | Some (yielded, start, named) =>
       match hw_close s x (close_fuel usum start) start with
-      | Some found => Some (finish s pat (href_union (href_union [] yielded) (rev found)) named)
+      | Some found => Some (finish s pat dm (href_union (href_union [] yielded) (rev found)) named)
       | None => None
       end
   end.
 
 Definition get_hcables_entries (s : state) (x : sel) (recursive : bool) (pat : str -> bool)
-           (usum : nat) (es : list entry) : option (list href) :=
+           (dm : href -> bool) (usum : nat) (es : list entry) : option (list href) :=
   match collect (hc_entry s x recursive) es with
   | None => None
   | Some (yielded, start, named) =>
       match hc_close s x (close_fuel usum start) start with
       | Some found =>
-          Some (finish s pat (href_union (href_union [] yielded) (map hcable_of (rev found))) named)
+          Some (finish s pat dm (href_union (href_union [] yielded) (map hcable_of (rev found))) named)
       | None => None
       end
   end.
 
-Definition get_hpins_entries (s : state) (recursive : bool) (pat : str -> bool) (es : list entry)
+Definition get_hpins_entries (s : state) (recursive : bool) (pat : str -> bool) (dm : href -> bool)
+           (es : list entry)
   : option (list href) :=
   match collect (hp_entry s recursive) es with
   | None => None
-  | Some (yielded, _, named) => Some (finish s pat (href_union [] yielded) named)
+  | Some (yielded, _, named) => Some (finish s pat dm (href_union [] yielded) named)
   end.
 
-Definition get_hports_entries (s : state) (recursive : bool) (pat : str -> bool) (es : list entry)
+Definition get_hports_entries (s : state) (recursive : bool) (pat : str -> bool) (dm : href -> bool)
+           (es : list entry)
   : option (list href) :=
   match collect (hq_entry s recursive) es with
   | None => None
-  | Some (yielded, _, named) => Some (finish s pat (href_union [] yielded) named)
+  | Some (yielded, _, named) => Some (finish s pat dm (href_union [] yielded) named)
   end.
 
 (* ---- ... and on a collection of roots ---- *)
 Definition with_roots {T} (s : state) (roots : list root) (f : list entry -> option T) : option T :=
   match expand_roots s roots with Some es => f es | None => None end.
 
-Definition get_hwires_roots s x recursive pat usum roots :=
-  with_roots s roots (get_hwires_entries s x recursive pat usum).
-Definition get_hcables_roots s x recursive pat usum roots :=
-  with_roots s roots (get_hcables_entries s x recursive pat usum).
-Definition get_hpins_roots s recursive pat roots :=
-  with_roots s roots (get_hpins_entries s recursive pat).
-Definition get_hports_roots s recursive pat roots :=
-  with_roots s roots (get_hports_entries s recursive pat).
+(* [pat]: the name map ("some pattern selects this name", pat_sel); [dpat]: references found directly
+   ("some pattern matches this name", pat_any_of) *)
+Definition get_hwires_roots s x recursive pat dpat usum roots :=
+  with_roots s roots (get_hwires_entries s x recursive pat (direct_match s dpat roots) usum).
+Definition get_hcables_roots s x recursive pat dpat usum roots :=
+  with_roots s roots (get_hcables_entries s x recursive pat (direct_match s dpat roots) usum).
+Definition get_hpins_roots s recursive pat dpat roots :=
+  with_roots s roots (get_hpins_entries s recursive pat (direct_match s dpat roots)).
+Definition get_hports_roots s recursive pat dpat roots :=
+  with_roots s roots (get_hports_entries s recursive pat (direct_match s dpat roots)).
 
 Definition pat_any (nm : str) : bool := true.
 
